@@ -26,9 +26,10 @@ RULE = (
     "hh / hhmm / hhmmss, zones none/Z/+-hh/+-hhmm/+-hh:mm) with 0-3 offsets "
     "of either sign spelled --offset=, -s, --offset1 or as a bare -P... "
     "value, under --calendar / ISODATETIMECALENDAR / --utc / ref: the output "
-    "must equal our own encoder applied, in the input's notation, to the "
-    "fields shifted on vlib.refcal (exact part, then months, then years, per "
-    "offset in order). kind 'diff': two date-times with offsets1/2: the "
+    "must equal our own encoder applied, in the input's notation (or in the "
+    "notation of a given --print-format: ISO dump syntax with template or "
+    "literal zones, or strftime directives), to the fields shifted on "
+    "vlib.refcal (exact part, then months, then years, per offset in order). kind 'diff': two date-times with offsets1/2: the "
     "printed duration, read by an own mini decoder, must satisfy first + d == "
     "second with the right sign; --as-total must be len(d)/unit. kind 'recur':"
     " exactly min(N, n) lines equal to the library's iteration rendered by "
@@ -130,10 +131,47 @@ def encode_like(arg, kw):
         if arg.get("frac") is not None:
             tv["frac"] = arg["frac"].rstrip("0") or "0"
         text += "T" + F.encode_time(tform, tv)
-        if arg["zexpr"] != "-":
+        if arg.get("zlit") is not None:
+            text += arg["zlit"]
+        elif arg["zexpr"] != "-":
             text += F.encode_zone(F.zone_form(arg["zexpr"], arg["notation"]),
                                   kw["time_zone_hour"], kw["time_zone_minute"])
     return text
+
+
+# print formats: (format string, notation, date expr, rep, time expr, zone)
+# zone: "own" (template or none), or a literal (text, (h, m)) that converts
+PRINT_ISO = [
+    ("CCYY-MM-DDThh:mm:ssZ", "extended", "CCYY-MM-DD", "c", "hh:mm:ss", ("Z", (0, 0))),
+    ("CCYYDDDThhmm+0100", "basic", "CCYYDDD", "o", "hhmm", ("+0100", (1, 0))),
+    ("CCYY-Www-DThh:mm+hh:mm", "extended", "CCYY-Www-D", "w", "hh:mm", "own"),
+    ("CCYYMMDDThhmmss-0530", "basic", "CCYYMMDD", "c", "hhmmss", ("-0530", (-5, -30))),
+    ("CCYY-MM-DD", "extended", "CCYY-MM-DD", "c", "-", "own"),
+    ("CCYY-DDDThh", "extended", "CCYY-DDD", "o", "hh", "own"),
+    ("CCYYWwwDThhmmssZ", "basic", "CCYYWwwD", "w", "hhmmss", ("Z", (0, 0))),
+]
+PRINT_STRFTIME = ["%Y-%m-%dT%H:%M:%S%z", "%j/%Y %X", "%s", "%d.%m.%Y", "%F %H%M"]
+
+
+def expected_print(cm, kw, pr):
+    """Expected output of --print-format for the final point kw."""
+    if pr["kind"] == "strftime":
+        from vlib.checks import c17
+        return c17.posix(cm, kw, pr["fmt"])
+    fmt, notation, dexpr, rep_, texpr, zone = PRINT_ISO[pr["i"]]
+    spec = {"notation": notation, "dexpr": dexpr, "rep": rep_, "texpr": texpr,
+            "zexpr": "-", "frac": None}
+    if zone != "own":
+        spec["zlit"] = zone[0]
+        kw = to_zone(cm, kw, zone[1])
+    elif "+hh:mm" in fmt:
+        spec["zexpr"] = "+hh:mm"
+    out = dict(G.spell_date(cm, M.kw_dn(cm, RC.normalise24(cm, kw)), rep_))
+    base = RC.normalise24(cm, kw)
+    for k in ("hour_of_day", "minute_of_hour", "second_of_minute",
+              "time_zone_hour", "time_zone_minute"):
+        out[k] = base[k]
+    return encode_like(spec, out)
 
 
 def resolve(cm, arg, utc, sys_cfg):
@@ -217,7 +255,11 @@ def check_case(case):
             utc = "--utc" in argv or "-u" in argv
             start = resolve(cm, arg, utc, sys_cfg)
             end = apply_offsets(cm, start, case["offsets"])
-            exp = encode_like(arg, end)
+            if case.get("print"):
+                exp = expected_print(cm, end, case["print"])
+                classes.append("print_format/" + case["print"]["fmt"])
+            else:
+                exp = encode_like(arg, end)
             if out != exp + "\n":
                 fail = ("shift: mode %s %s printed %r, expected %r" % (
                     mode, shown, out, exp + "\n"))
@@ -458,6 +500,18 @@ def st_shift(draw):
         groups.insert(draw(st.integers(0, len(groups))),
                       [draw(st.sampled_from(["--utc", "-u"]))])
     frag = flat(groups)
+    pr = None
+    if (arg["frac"] is None and "X" not in arg["dexpr"] and "YY" in arg["dexpr"]
+            and arg["time"] is not None and arg["time"].get("hour") != 24
+            and draw(st.integers(0, 3)) == 0):
+        if draw(st.booleans()):
+            i = draw(st.integers(0, len(PRINT_ISO) - 1))
+            pr = {"kind": "iso", "i": i, "fmt": PRINT_ISO[i][0]}
+        else:
+            pr = {"kind": "strftime",
+                  "fmt": draw(st.sampled_from(PRINT_STRFTIME))}
+        style = draw(st.sampled_from(["--print-format=", "--format=", "-f"]))
+        frag += [style + pr["fmt"]] if style.endswith("=") else [style, pr["fmt"]]
     if pos[:1] in "+-" or draw(st.booleans()):
         argv += frag + ["--", pos]
     elif draw(st.booleans()):
@@ -466,7 +520,7 @@ def st_shift(draw):
         argv += frag + [pos]
     return {"kind": "shift", "mode": mode, "mode_via": via, "argv": argv,
             "env": env, "sys": list(draw(SYS)), "arg": arg, "offsets": offs,
-            "ref_via": ref_via}
+            "ref_via": ref_via, "print": pr}
 
 
 @st.composite
